@@ -23,6 +23,7 @@ var depCatalogue = []string{
 	`upper(s)`, `cat(p, q, s)`, `cat(l...)`,
 	`"a${s}b${p}"`, `"%{for x in l}${x}${s}%{endfor}"`, `"%{for s in l}${s}%{endfor}${q}"`, `"%{if b}${s}%{else}${p}%{endif}"`,
 	"<<EOT\n${s} and ${q}\nEOT\n", `"%{for k, v in m}${k}=${v}%{endfor}"`,
+	`l[*][n]`, `[o, o][*].a[n]`, `[l, l][*][s]`,
 	`b && s == p`, `!b || q == s`, `-n + (n * n)`, `[for x in [s] : x][0]`, `{for x in [p, q] : x => s}`,
 }
 
